@@ -390,8 +390,64 @@ theorem every_gateway_rpc_has_a_case :
 
 /-! ### non-vacuity: a concrete universe and a concrete adversarial run -/
 
+/-- **a relayed outline is judged by the block it determines, not by its ID.**  The model's
+`relayOutline b` carries a *block* of the universe — every field the outline fixes, the height
+it claims included (`(U b).orphan` is `ValidateOrphan` of that block) — and several blocks may
+share one header ID (`sameId`): the ID of an outline does not cover its height field, so anybody
+who has seen a valid block can produce an outline with the same ID (and proof of work) that
+`ValidateOrphan` rejects.  Such an outline `v` is answered (with a ban when it attaches to the
+tip) and leaves **no trace**: the node is unchanged, hence the verdict on any outline `b` relayed
+afterwards — in particular the real block with the same ID, relayed by honest peers — is exactly
+what it would have been.  (A handler that remembered "an outline with this ID was rejected" and
+judged later outlines by that would ban every honest relayer of the block.) -/
+theorem outline_judged_by_block_not_id (U : Univ) (n : Node) (v b : Nat) (mv m : Missing)
+    (hv : (U v).orphan = false) (hs : n.supp.any (sameId U v) = false) :
+    (stepOutline U n v mv).1 = n ∧
+    stepOutline U (stepOutline U n v mv).1 b m = stepOutline U n b m := by
+  have h1 : (stepOutline U n v mv).1 = n := by
+    have hsl : ∃ e, storeLoop U n n.tip [v] = (n, n.tip, some e) := by
+      simp only [storeLoop, hs, hv]
+      rw [if_neg (by decide)]
+      by_cases hp : ((U v).parent != (U n.tip).cid && !n.known.contains (U v).parent) = true
+      · exact ⟨_, by rw [if_pos hp]⟩
+      · rw [if_neg hp]
+        by_cases hf : (U v).future = true
+        · exact ⟨_, by rw [if_pos hf]⟩
+        · exact ⟨_, by rw [if_neg hf, if_pos (by decide)]⟩
+    have ha : (addBlocks U n [v]).1 = n := by
+      obtain ⟨e, he⟩ := hsl
+      simp only [addBlocks, he]
+      simp
+    unfold stepOutline
+    split
+    · rfl
+    · split
+      · rfl
+      · split
+        · rfl
+        · split
+          · rfl
+          · cases mv <;> simp [ha]
+  exact ⟨h1, by rw [h1]⟩
+
+/-- **"in the store" is not "validated".**  `Inv` does not mention `known`: the manager stores a
+block (with a header-level state) before it validates it, and the block stays stored when the
+reorg fails — e.g. a relayed outline with an invalid transaction, whose sender was banned.
+Whatever is stored, whatever any number of peers send afterwards (in particular a chain that
+contains the stored block and continues on the state stored for it): a block that fails
+`ValidateBlock` is never on the best chain, and every block of the best chain has a fully valid
+ancestry.  The checkpoint path validates every block of a batch, stored or not
+(`gate_v2_sound`). -/
+theorem stored_invalid_block_never_adopted (U : Univ) (wf : WF U) (hb : HashBinds U) (cfg : Cfg)
+    (n : Node) (h : Inv U n) (x : Nat) (hx : (U x).body = false) (evs : List Ev) :
+    x ∉ (run U cfg n evs).best ∧ ∀ b ∈ (run U cfg n evs).best, ValidTo U b := by
+  refine ⟨fun hm => ?_, (run_inv wf hb cfg evs n h).best⟩
+  have := syncer_preserves_validity U wf hb cfg n h evs x hm
+  rw [hx] at this; cases this
+
 /-- genesis 0; honest chain 0←1←2←3 (3 is v2 and above the require height 2); 4 is a variant of 3
-with the same ID whose body is invalid; 5 is a header-valid, body-invalid child of 1 -/
+with the same ID whose body is invalid; 5 is a header-valid, body-invalid child of 1; 6 is 3's
+outline with another height field: same ID, same proof of work, rejected by `ValidateOrphan` -/
 def exU : Univ := fun i =>
   match i with
   | 0 => ⟨0, 0, 0, 10, 10, true, true, true, true, false, false⟩
@@ -400,6 +456,7 @@ def exU : Univ := fun i =>
   | 3 => ⟨2, 3, 3, 40, 10, true, true, true, true, true, false⟩
   | 4 => ⟨2, 3, 3, 40, 10, true, true, true, false, true, false⟩
   | 5 => ⟨1, 5, 2, 35, 10, true, true, true, false, false, false⟩
+  | 6 => ⟨2, 3, 3, 40, 10, true, true, false, false, true, false⟩
   | _ => ⟨0, 0, 0, 0, 0, false, false, false, false, false, false⟩
 
 def exCfg : Cfg := ⟨2, 100⟩
@@ -418,13 +475,28 @@ reorg fails, rolled back ⇒ ban, tip unchanged -/
 example : (step exU exCfg ⟨[1, 0], [1, 0], [1, 0]⟩ (.sync [.hdrs [5] 0] [⟨none, some [5]⟩])).2 = .ban
     ∧ (step exU exCfg ⟨[1, 0], [1, 0], [1, 0]⟩ (.sync [.hdrs [5] 0] [⟨none, some [5]⟩])).1.best = [1, 0] := by decide
 
+/-- the outline of 3 with another height (6: same ID) is relayed first: ban, nothing stored; the
+real block 3 relayed afterwards is applied -/
+example : (step exU exCfg ⟨[2, 1, 0], [2, 1, 0], [2, 1, 0]⟩ (.relayOutline 6 .complete)) = (⟨[2, 1, 0], [2, 1, 0], [2, 1, 0]⟩, .ban)
+    ∧ (step exU exCfg (step exU exCfg ⟨[2, 1, 0], [2, 1, 0], [2, 1, 0]⟩ (.relayOutline 6 .complete)).1 (.relayOutline 3 .complete)).2 = .apply
+    ∧ (run exU exCfg ⟨[2, 1, 0], [2, 1, 0], [2, 1, 0]⟩ [.relayOutline 6 .complete, .relayOutline 3 .complete]).best = [3, 2, 1, 0] := by decide
+
+/-- two steps, two peers: the outline of 4 (3's ID, invalid body) is relayed: stored, the reorg
+fails, ban; a second peer then delivers it in a checkpoint batch: validated again, ban, tip unchanged -/
+example : (step exU exCfg ⟨[2, 1, 0], [2, 1, 0], [2, 1, 0]⟩ (.relayOutline 4 .complete)).2 = .ban
+    ∧ (step exU exCfg ⟨[2, 1, 0], [2, 1, 0], [2, 1, 0]⟩ (.relayOutline 4 .complete)).1.known.contains 4 = true
+    ∧ (step exU exCfg (step exU exCfg ⟨[2, 1, 0], [2, 1, 0], [2, 1, 0]⟩ (.relayOutline 4 .complete)).1
+        (.sync [.hdrs [3] 0] [⟨some ⟨2, true, true, true, true, true⟩, some [4]⟩])).2 = .ban
+    ∧ (run exU exCfg ⟨[2, 1, 0], [2, 1, 0], [2, 1, 0]⟩ [.relayOutline 4 .complete,
+        .sync [.hdrs [3] 0] [⟨some ⟨2, true, true, true, true, true⟩, some [4]⟩]]).best = [2, 1, 0] := by decide
+
 /-- the invariant's hypotheses are satisfiable: `exU` is well-formed and the genesis node satisfies `Inv` -/
 theorem exU_wf : WF exU := by
   refine ⟨by decide, by decide, ?_⟩
   intro b
   match b with
-  | 0 | 1 | 2 | 3 | 4 | 5 => rfl
-  | _ + 6 => rfl
+  | 0 | 1 | 2 | 3 | 4 | 5 | 6 => rfl
+  | _ + 7 => rfl
 
 example : Inv exU Node.init := Inv.init exU_wf
 
